@@ -1,6 +1,7 @@
 package props
 
 import (
+	"regexp"
 	"fmt"
 	"go/token"
 	"go/types"
@@ -283,9 +284,9 @@ func runC18(c *Ctx) {
 			}
 			found = true
 			requireGuards(c, "insert-guards", "loadByteArray table insert", i, []guardReq{
-				{"State == StateAllocated", `^\(local\(v\)\.State==2\)$`},
-				{"address valid and inside the home subnet", `^\(net/netip\.Prefix\)\.Contains\(.*SubnetConfig\.LAN,local\(v\)\.Addr\.IP\)$`},
-				{"non-empty client id", `^!\(len\(local\(v\)\.ClientID\)==0\)$`},
+				{"State == StateAllocated", `^\(local\(\w+\)\.State==2\)$`},
+				{"address valid and inside the home subnet", `^\(net/netip\.Prefix\)\.Contains\(.*SubnetConfig\.LAN,local\(\w+\)\.Addr\.IP\)$`},
+				{"non-empty client id", `^!\(len\(local\(\w+\)\.ClientID\)==0\)$`},
 			})
 			_ = mu
 		})
@@ -297,7 +298,7 @@ func runC18(c *Ctx) {
 		// choice here makes the first renewal after a restart lose the binding
 		core.EachInstr(fn, func(i ssa.Instruction) {
 			st, ok := i.(*ssa.Store)
-			if !ok || !strings.HasSuffix(norm(st.Addr), "local(v).subnet") {
+			if !ok || !leaseLocalField(norm(st.Addr), "subnet") {
 				return
 			}
 			// which subnet? the value is a φ of the two loaded subnets; the default assignment (net1) is the first store
@@ -306,8 +307,8 @@ func runC18(c *Ctx) {
 				return // the unconditional default (home subnet)
 			}
 			requireGuards(c, "insert-guards", "loadByteArray subnet = net2", i, []guardReq{
-				{"the MAC is captured", `^\(packet\.Session\)\.IsCaptured\(recv\.session,local\(v\)\.Addr\.MAC\)$`},
-				{"the address is inside net2", `^\(net/netip\.Prefix\)\.Contains\(.*SubnetConfig\.LAN,local\(v\)\.Addr\.IP\)$`},
+				{"the MAC is captured", `^\(packet\.Session\)\.IsCaptured\(recv\.session,local\(\w+\)\.Addr\.MAC\)$`},
+				{"the address is inside net2", `^\(net/netip\.Prefix\)\.Contains\(.*SubnetConfig\.LAN,local\(\w+\)\.Addr\.IP\)$`},
 			})
 			// ... inside *that* subnet: the prefix tested is the LAN of the very subnet value being attached (both loaded
 			// subnets print alike, so the test is on SSA identity)
@@ -521,4 +522,11 @@ func subnetOfPrefix(v ssa.Value) ssa.Value {
 		return inner.X
 	}
 	return fa.X
+}
+
+
+// leaseLocalField: text is local(<any name>).<field> - the rules about the lease being restored do not depend on
+// what the loop variable is called.
+func leaseLocalField(text, field string) bool {
+	return regexp.MustCompile(`^local\(\w+\)\.` + regexp.QuoteMeta(field) + `$`).MatchString(text)
 }
